@@ -10,6 +10,11 @@ fi
 for f in IdentifyGenConf IdentifyGenIM IdentifyGenMB; do
   [ -f coq/theories/$f.v ] || echo "(* the translator failed closed on this part of identify_utils.py *) Definition translator_failed_closed : True := 0." > coq/theories/$f.v
 done
+# causal_graph.py traversal methods -> TraversalGenCyc.v / TraversalGenQ.v (same fail-closed convention; the tool writes its own stub)
+/venv/bin/python tools/translate_traversal.py "${VERIF_REPO:-/repo}" coq/theories || true
+for f in TraversalGenCyc TraversalGenQ; do
+  [ -f coq/theories/$f.v ] || echo "(* the translator failed closed *) Definition translator_failed_closed : True := 0." > coq/theories/$f.v
+done
 cd coq
 coq_makefile -f _CoqProject -o Makefile >/dev/null
 timeout 3000 make -k -j"$(nproc)" 2>&1 | tail -5
